@@ -205,7 +205,20 @@ def pure_move(ctx: Ctx):
         for n_ in ast.walk(s_):
             if isinstance(n_, ast.Assign) and any(is_name(t, fixed_name) for t in n_.targets):
                 v_ = n_.value
-                harmless = (isinstance(v_, ast.List) and not v_.elts) or (isinstance(v_, ast.Call) and callee_name(v_) in ("list", "sorted", "tuple") and len(v_.args) == 1 and is_name(v_.args[0], fixed_name))
+                def _harmless(e):
+                    if isinstance(e, ast.List) and not e.elts:
+                        return True  # the default
+                    if is_name(e, fixed_name):
+                        return True
+                    if isinstance(e, ast.Call) and callee_name(e) in ("list", "sorted", "tuple") and len(e.args) == 1 and _harmless(e.args[0]):
+                        return True  # a copy
+                    if isinstance(e, ast.IfExp):
+                        return _harmless(e.body) and _harmless(e.orelse)  # [] if fixed is None else fixed
+                    if isinstance(e, ast.BoolOp) and isinstance(e.op, ast.Or):
+                        return all(_harmless(x) for x in e.values)  # fixed or []
+                    return False
+
+                harmless = _harmless(v_)
                 res.instance("PURE-MOVE", f"parafac: `{src(n_)[:60]}` before the all-fixed test", sample={"harmless": harmless})
                 if not harmless:
                     ctx.finding("PURE-MOVE", f, n_, f"`{src(n_)[:80]}` re-binds `{fixed_name}` before the all-fixed shortcut `if {src(short.test)[:50]}` reads it: with the last mode already stripped the test can never hold, so fixing every mode no longer returns the initialisation unchanged (the last factor is updated)", construct=f"parafac: {fixed_name} filtered before the all-fixed test")
@@ -239,7 +252,9 @@ def pure_move(ctx: Ctx):
     if not ok:
         ctx.finding("PURE-MOVE", f, short, "fixing every mode does not return the initialisation unchanged: the shortcut does not wrap exactly the initialiser's outputs (or they are modified before it)", construct="all-fixed shortcut of parafac")
     # (2) tucker(fixed_factors=...)
-    t = repo.func(D + "_tucker.tucker")
+    from ..inline import with_inlined
+
+    t = with_inlined(repo, repo.func(D + "_tucker.tucker"))  # the partition may live in a local helper
     def closure(seed_pred):
         """names reached from the seed by moves only (assignments, for-targets, comprehension
         elements); ``seed_pred(stmt_value)`` marks seeding definitions"""
